@@ -637,6 +637,25 @@ def rule_h(ctx):
     ctx.rule(R, "the interpolation matrix is the full kernel matrix: X[i, j] = kernel(supports[i], supports[j]) is stored for every index pair "
              "(full square, or a triangle that includes the diagonal together with the mirrored store); the weights are X^-1 . values")
     m = ctx.model
+    # the cached inverse belongs to the supports it was built from: whenever update() re-binds self.supports, the inverse is dropped -- the
+    # only admissible guard is its existence (a guard on sizes / counts keeps a stale inverse for equally many different supports)
+    up = m.func(KINT, "KernelInterpolation.update")
+    dels = [d for d in ast.walk(up.node) if isinstance(d, ast.Delete) and any(norm(t) == "self.Xinv" for t in d.targets)]
+    binds = [s_ for s_ in ast.walk(up.node) if isinstance(s_, ast.Assign) and any(norm(t) == "self.supports" for t in s_.targets)]
+    if dels and binds:
+        for d in dels:
+            conds = []
+            cur = d
+            while cur is not None and cur is not up.node:
+                par = getattr(cur, "_parent", None)
+                if isinstance(par, ast.If) and cur in par.body:
+                    conds.append(par.test)
+                cur = par
+            data_dep = [norm(t) for t in conds if "Xinv" in norm(t) and norm(t) not in ("hasattr(self, 'Xinv')",)]
+            ctx.ob(R, up.qname, "update(): the cached inverse is dropped whenever the supports are replaced (guarded by its existence only)", not data_dep,
+                   f"dropped only if `{data_dep[0][:90]}`: equally many new supports are interpolated with the inverse of the old kernel matrix" if data_dep else "", d, evidence=True)
+    else:
+        ctx.ob(R, up.qname, "update(): the cached inverse is dropped whenever the supports are replaced (guarded by its existence only)", False, "", up.node)
     f = m.func(KINT, "KernelInterpolation.setup_kernel_problem")
     ctx.instance(R)
     # the set-up is folded symbolically for two symbolic supports (helpers of the class are followed, statements outside the folding
